@@ -4,7 +4,9 @@ import (
 	"fmt"
 	"mime"
 	"net/http"
+	"strconv"
 	"strings"
+	"unicode/utf8"
 
 	"github.com/imroc/req/v3/verifharness/hk"
 )
@@ -131,15 +133,7 @@ func mergedKeys(in reqIn) []string {
 }
 
 // emitBody writes the BodyCase for one exchange.
-func (g *gen) emitBody(in reqIn, s sentReq, parts []seenPart, orderOK, partsOK bool, marshalSeen string, nontrivial bool) {
-	for _, f := range in.Files {
-		if !quoteModelled(f.Param) || !quoteModelled(f.Name) {
-			// strconv.Quote's treatment of invalid UTF-8 / unprintable runes is not modelled: judged by the oracle alone
-			g.r.Count("not-modelled:file-name-outside-printable-utf8")
-			g.r.Add(hk.Case{Desc: map[string]interface{}{"kind": in.Kind, "in": in}}, in.key(), nontrivial)
-			return
-		}
-	}
+func (g *gen) emitBody(in reqIn, s sentReq, parts []seenPart, orderOK, partsOK bool, marshalSeen string, nontrivial bool, keySuffix string) {
 	var ct, body []byte
 	arrivedOK := s.Arrived != nil
 	boundary := ""
@@ -159,15 +153,17 @@ func (g *gen) emitBody(in reqIn, s sentReq, parts []seenPart, orderOK, partsOK b
 	for _, f := range in.Files {
 		files = append(files, coqFile(f))
 	}
-	raw := "None"
-	if in.RawSet {
+	raw, stream := "None", "None"
+	if in.RawSet && in.Stream {
+		stream = "(Some " + cb(in.Raw) + ")"
+	} else if in.RawSet {
 		raw = "(Some " + cb(in.Raw) + ")"
 	}
-	q := fmt.Sprintf("(Build_breq %s %s %s %s %s %s %s %s %s %s %s %s %s %s %s)",
+	q := fmt.Sprintf("(Build_breq %s %s %s %s %s %s %s %s %s %s %s %s %s %s %s %s)",
 		cs(in.Method), hk.CoqBool(in.AllowGet), hk.CoqBool(in.multipart()),
 		cForm(sortedForm(in.RForm)), cForm(sortedForm(in.CForm)), csList(in.Ordered), csList(ko),
 		hk.CoqList(files), hk.CoqBool(in.failing()), cs(in.Boundary), cs(boundary),
-		hk.CoqBool(in.Marshal != ""), raw, cs(in.RCT), cs(in.CCT))
+		hk.CoqBool(in.Marshal != ""), raw, stream, cs(in.RCT), cs(in.CCT))
 	ms := "None"
 	switch marshalSeen {
 	case "json":
@@ -180,9 +176,33 @@ func (g *gen) emitBody(in reqIn, s sentReq, parts []seenPart, orderOK, partsOK b
 		op = "(Some " + coqParts(parts) + ")"
 	}
 	o := fmt.Sprintf("(Build_body_obs %s %s %s %s %s %s)", hk.CoqBool(arrivedOK), hk.CoqBool(s.Err != ""), cb(ct), cb(body), ms, op)
-	coq := fmt.Sprintf("BodyCase %s %s %s", q, sniffTable(in), o)
+	var quoted []string
+	for _, f := range in.Files {
+		quoted = append(quoted, f.Param, f.Name)
+		for _, kv := range f.Extra {
+			quoted = append(quoted, kv[1])
+		}
+	}
+	coq := fmt.Sprintf("BodyCase %s %s %s %s", q, printTable(quoted...), sniffTable(in), o)
 	desc := map[string]interface{}{"kind": in.Kind, "in": in}
-	g.r.Add(hk.Case{Coq: coq, Desc: desc}, in.key(), nontrivial)
+	g.r.Add(hk.Case{Coq: coq, Desc: desc}, in.key()+keySuffix, nontrivial)
 }
 
 func trimmed(s string) string { return strings.TrimSpace(s) }
+
+// printTable: the runes >= 0x80 occurring (validly encoded) in the strings that strconv.IsPrint accepts.
+func printTable(ss ...string) string {
+	seen := map[rune]bool{}
+	var rows []string
+	for _, s := range ss {
+		for i := 0; i < len(s); {
+			r, w := utf8.DecodeRuneInString(s[i:])
+			if r >= 0x80 && !(r == utf8.RuneError && w == 1) && strconv.IsPrint(r) && !seen[r] {
+				seen[r] = true
+				rows = append(rows, hk.CoqN(uint64(r)))
+			}
+			i += w
+		}
+	}
+	return hk.CoqList(rows)
+}
